@@ -1,8 +1,8 @@
-(* Proofs/ProgSoundElse.v — C06, whole programs WITH ELSE.
-   The theorem of Proofs/ProgSound.v without the "no ELSE" restriction: if the
-   checker accepts every line of a program that contains no INPUT and no DEF
-   token, no run of it fails with a syntax error, a type mismatch or a jump to
-   an undefined line.
+(* Proofs/ProgSoundElse.v — C06, whole programs WITH ELSE and INPUT.
+   The theorem of Proofs/ProgSound.v without the "no ELSE" and "no INPUT"
+   restrictions: if the checker accepts every line of a program that contains
+   no DEF token, no run of it — the replies the host gives at INPUT included —
+   fails with a syntax error, a type mismatch or a jump to an undefined line.
 
    What changes with ELSE:
    - a position the interpreter can come to is now ACCEPTED (the checker's walk
@@ -14,7 +14,19 @@
      by a clause the checker accepted whose end is again such a position;
    - a false IF scans for the first ELSE: the scan is followed along the
      checker's own run over the same tokens ([ScanAt]); everything a
-     non-branching statement consumes is neither ELSE nor ":" (PlainToks.v). *)
+     non-branching statement consumes is neither ELSE nor ":" (PlainToks.v).
+
+   What changes with INPUT:
+   - INPUT without a pending reply goes back to its own token and waits; with a
+     reply it stores it (or answers REENTER and goes back again).  The tokens of
+     its target are expression tokens, so the scan back finds this INPUT
+     ([rewind_loop_input], [rewind_await]);
+   - the statement is re-executed at nesting 0 wherever it stands: the position
+     of an INPUT that is the clause of an IF is a third kind of landing position
+     ([InputOK]: the statement the checker accepted there, with the end of the
+     clause behind it); statement-level lemmas carry the hypothesis "if the
+     statement starts with INPUT, execution may stand at its start" ([tsoundES]);
+   - runs are sequences of turns and [provide_input] steps ([ReachI]). *)
 From Coq Require Import List NArith ZArith Bool Lia.
 From Abasic Require Import Model.Bytes Model.Num Model.Token Model.Data Model.Lexer Gen.Tables
      Model.State Model.Eval Model.Interp Model.Analyzer Proofs.Monad Proofs.Frames Proofs.StoreProofs
